@@ -123,9 +123,18 @@ class ExecImpl:
             self.linemaps = {}
             self.sources = {}
             self.cells_def = [dict(c) for c in cells]
+            # how formulas spell a cells of their own space: by its name (default); "mixed" (set in the first cells'
+            # description): call sites take turns between the name `c<i>`, a reference `zc<i>` that holds the cells,
+            # and the attribute path `_space.c<i>` - three routes into the library for one and the same call
+            self.call_style = cells[0].get("call_style") if cells else None
+            self.n_sites = 0
             for c in cells:
                 if not c.get("absent"):
                     self.define(c)
+            if self.call_style == "mixed":
+                for c in cells:
+                    if not c.get("absent"):
+                        setattr(self.space_obj(int(c.get("space", 0))), "zc%d" % c["id"], self.cells[c["id"]])
         mx.set_recursion(maxdepth if maxdepth else 100000)
         self.ex = mx.core.mxsys.executor
 
@@ -164,6 +173,9 @@ class ExecImpl:
 
     def _cell_name(self, c):
         p = self._path_to(self.cell_space.get(c, 0))
+        if p is None and self.call_style == "mixed":
+            self.n_sites += 1
+            return ("c%d", "zc%d", "_space.c%d")[self.n_sites % 3] % c
         return "c%d" % c if p is None else "%s.c%d" % (p, c)
 
     def _attr_path(self, r):
